@@ -285,6 +285,19 @@ theorem diffAppend_length (circular : Bool) (x : List K) : (diffAppend circular 
   | nil => rfl
   | cons a r => simp [diffAppend, diffList_length]
 
+/-- on a 1-D array the N-d index formula used by the TV model is the code-shaped difference -/
+theorem fdAxis_1d (circular : Bool) (x : List K) :
+    fdAxis circular [x.length] 0 x = diffAppend circular x := by
+  apply List.ext_getElem
+  · simp [fdAxis, size, diffAppend_length]
+  · intro i h1 h2
+    have hi : i < x.length := by simpa [diffAppend_length] using h2
+    have hR : (diffAppend circular x)[i] = (diffAppend circular x).getD i 0 := by
+      simp [List.getD_eq_getElem?_getD, h2]
+    rw [hR, diffAppend_getD circular x i hi]
+    simp only [fdAxis, size, List.getElem_map, List.getElem_range, List.getD_cons_zero, List.drop_succ_cons,
+      List.drop_zero, List.foldl_nil, Nat.div_one, Nat.mod_eq_of_lt hi, Nat.mul_one, Nat.sub_self]
+
 end fd
 
 /-! ### metrics -/
